@@ -83,9 +83,16 @@ static struct reb_treecell *reb_tree_add_particle_to_cell(struct reb_simulation*
 		struct reb_particle p = particles[pt];
 		if (parent == NULL){ // The new node is a root
 			node->w = r->root_size;
-			int i = ((int)floor((p.x + r->boxsize.x/2.)/r->root_size))%r->N_root_x;
-			int j = ((int)floor((p.y + r->boxsize.y/2.)/r->root_size))%r->N_root_y;
-			int k = ((int)floor((p.z + r->boxsize.z/2.)/r->root_size))%r->N_root_z;
+			int i = (int)floor((p.x + r->boxsize.x/2.)/r->root_size);
+			int j = (int)floor((p.y + r->boxsize.y/2.)/r->root_size);
+			int k = (int)floor((p.z + r->boxsize.z/2.)/r->root_size);
+			// A particle exactly on the upper boundary of the box belongs to the last root box.
+			if (i==r->N_root_x) i--;
+			if (j==r->N_root_y) j--;
+			if (k==r->N_root_z) k--;
+			i = i%r->N_root_x;
+			j = j%r->N_root_y;
+			k = k%r->N_root_z;
 			node->x = -r->boxsize.x/2.+r->root_size*(0.5+(double)i);
 			node->y = -r->boxsize.y/2.+r->root_size*(0.5+(double)j);
 			node->z = -r->boxsize.z/2.+r->root_size*(0.5+(double)k);
@@ -198,8 +205,26 @@ static struct reb_treecell *reb_simulation_update_tree_cell(struct reb_simulatio
             (r->N)--;
             r->particles[oldpos] = r->particles[r->N];
             r->particles[oldpos].c->pt = oldpos;
+            // This node is still linked into the tree while the particle gets reinserted.
+            // Mark it as an (empty) non-leaf node so that it is not mistaken for a leaf if
+            // the particle ends up in this very cell again (possible due to rounding when a 
+            // particle sits right on a cell boundary).
+            node->pt = -1;
             if (!isnan(reinsertme.y)){ // Do not reinsert if flagged for removal
                 reb_simulation_add(r, reinsertme);
+            }
+            if (node->pt != -1){
+                // Particle was reinserted into this cell. Make the node a leaf again.
+                for (int o=0; o<8; o++) {
+                    struct reb_treecell *d = node->oct[o];
+                    if (d != NULL){
+                        node->pt = d->pt;
+                        r->particles[node->pt].c = node;
+                        free(d);
+                        node->oct[o] = NULL;
+                    }
+                }
+                return node;
             }
         }
 		free(node);
